@@ -521,9 +521,20 @@ def norm_module(m, side):
         pl = dict(pl)
         pl["project"] = norm(pl["project"], side)
         d["payload"] = pl
-    elif m["type"] == "Sampler" and pl.get("effect") is not None:
+    elif m["type"] == "Sampler":
         pl = dict(pl)
-        pl["effect"] = norm(pl["effect"], side)
+        if pl.get("effect") is not None:
+            pl["effect"] = norm(pl["effect"], side)
+        # the two text fields of the instrument are 22 bytes wide: the file holds the first 22 bytes, NUL-stripped
+        if isinstance(pl.get("instrument_name"), (bytes, bytearray)):
+            pl["instrument_name"] = bytes(pl["instrument_name"][:22]).rstrip(b"\0")
+        if isinstance(pl.get("samples"), dict):
+            ss = {}
+            for k, v in pl["samples"].items():
+                if isinstance(v, dict) and isinstance(v.get("name"), (bytes, bytearray)):
+                    v = dict(v, name=bytes(v["name"][:22]).rstrip(b"\0"))
+                ss[k] = v
+            pl["samples"] = ss
         d["payload"] = pl
     return d
 
